@@ -667,6 +667,16 @@ func (w *world) checkMeta(t tb, cl *client, bt time.Time, what string) {
 			w.fail(t, "%s: %s (key \"%s\") = %x, expected %x", what, m.What, printable(m.Key), got, m.Value)
 		}
 	}
+	if cl.in.Typ == BSC {
+		// a freshly initialised Parlia client knows exactly one recent signer, the sealer of the installed header; records of
+		// the client that was there before would make it refuse valid headers of sealers it never saw sign
+		for k := range kvs {
+			if strings.HasPrefix(k, "recentSingers/") && k != "recentSingers/"+cl.in.Height.String() {
+				w.fail(t, "%s: the newly installed BSC client (height %s) still holds the recent-signer record \"%s\" of the client that was there before", what, cl.in.Height, printable(k))
+			}
+		}
+		w.r.Label("bsc_install_recent_signers_exact")
+	}
 }
 
 func printable(s string) string {
